@@ -8,6 +8,9 @@ from pathlib import Path
 
 VERIF = Path(__file__).resolve().parent.parent
 NOTES = {
+    "C02-r5change1": "first reported without a failing input (the effect checker rejects the write into the stored specification): the noise users of the shared data now include one that loads through the public loader WITH injected values",
+    "C09-r5change1": "first reported without a failing input (model correspondence only): the views and ticks of both runs are equal, the crack counter is not -- the stack counters among the skill's own entities are now part of the compared status",
+    "C19-r5change1": "missed at first: two random pre-assigned jobs rarely provide the same link skill; cases with two or three pre-assigned jobs that share one link (one slot, limit 1) are now generated",
     "C10-r5change1": "missed at first (the view and `use` disagree only when the ether gauge EQUALS the price): every numeric field of every entity of a harvested state is now set to the component's own thresholds (its numeric configuration values, 0, 1), one below and one above, with the cooldown ready; valid => `use` is not rejected",
     "C13-r5change1": "missed at first: the share report was read once, at the end; it is now also read twice in the middle of the run and its final shares must be those of a report read only once",
     "C04-r5change1": "missed at first: no plan had a hundred commands; a chain of long plans (104 -> 112 -> 95 -> 131 commands) is now run per job (two jobs in the quick tier)",
